@@ -39,6 +39,64 @@ func steerAround(key string) bool {
 	return pbt.Known(key) || (pending[key] && os.Getenv("VERIF_NO_PENDING") == "")
 }
 
+// ---- provenance of the operands --------------------------------------------------------------------
+//
+// A share of the cases builds its alignments through a drawn chain of public operations (clone, rename
+// cycle, cut, select, clean, concat, append, re-parse ...) that ends on exactly the generated content
+// (gen.DrawPlan / gen.BuildVia): the oracle stays the column arithmetic on the generated rows.
+
+// activePlan is the plan of the alignment the running check builds (checks run one at a time)
+var activePlan gen.Plan
+var planUnusable bool
+
+// build constructs the alignment, through the active plan if there is one
+func build(a gen.Ali) align.Alignment {
+	if len(activePlan.Steps) > 0 {
+		if al, ok := gen.BuildVia(a, activePlan); ok {
+			return al
+		}
+		planUnusable = true
+	}
+	return gen.MustBuild(a)
+}
+
+// usePlan makes p the active plan and labels the case
+func usePlan(o *pbt.Outcome, p gen.Plan) {
+	activePlan = p
+	planUnusable = false
+	if len(p.Steps) == 0 {
+		o.Class("provenance=fresh")
+		return
+	}
+	seen := map[string]bool{}
+	for _, k := range p.Kinds() {
+		if !seen[k] {
+			seen[k] = true
+			o.Class("provenance=%s", k)
+		}
+	}
+}
+
+// donePlan closes the case: counts a chain that did not end on the content (not this property's business)
+func donePlan(o *pbt.Outcome) {
+	if planUnusable {
+		o.Class("provenance-unusable")
+	}
+	activePlan = gen.Plan{}
+}
+
+// genPlan draws a plan for one case in three
+func genPlan(t *rapid.T, a gen.Ali, label string) gen.Plan {
+	if uni(t, 3, label) != 0 {
+		return gen.Plan{}
+	}
+	junk := "ACGT-"
+	if a.Alphabet == "aa" {
+		junk = "ARNDLKMF-"
+	}
+	return gen.DrawPlan(t, a, junk, 3)
+}
+
 // ---- model helpers ------------------------------------------------------------------------
 
 func aliLen(a gen.Ali) int { return len(a.Rows[0].Seq) }
@@ -297,12 +355,13 @@ func genWindow(t *rapid.T, l int, label string) (s, n int) {
 // ---- windows: SubAlign, InverseCoordinates, TrimSequences, prefix+suffix re-assembly ----------
 
 type winCase struct {
-	Ali       gen.Ali `json:"ali"`
-	Start     int     `json:"start"`
-	Len       int     `json:"len"`
-	Cut       int     `json:"cut"`
-	Trim      int     `json:"trim"`
-	FromStart bool    `json:"from_start"`
+	Plan      gen.Plan `json:"plan"`
+	Ali       gen.Ali  `json:"ali"`
+	Start     int      `json:"start"`
+	Len       int      `json:"len"`
+	Cut       int      `json:"cut"`
+	Trim      int      `json:"trim"`
+	FromStart bool     `json:"from_start"`
 }
 
 func genWin(t *rapid.T) winCase {
@@ -323,6 +382,7 @@ func genWin(t *rapid.T) winCase {
 		c.Trim = bint(t, l, "trimb")
 	}
 	c.FromStart = rapid.Bool().Draw(t, "fromstart")
+	c.Plan = genPlan(t, c.Ali, "prov")
 	return c
 }
 
@@ -353,7 +413,7 @@ func winClass(l, s, n int) string {
 // checkSubAlign judges SubAlign(s,n) on a freshly built alignment
 func checkSubAlign(o *pbt.Outcome, a gen.Ali, s, n int) error {
 	rows, l := a.Rows, aliLen(a)
-	al := gen.MustBuild(a)
+	al := build(a)
 	sub, e := al.SubAlign(s, n)
 	switch {
 	case !winValid(l, s, n):
@@ -385,7 +445,7 @@ func checkSubAlign(o *pbt.Outcome, a gen.Ali, s, n int) error {
 // checkInverse judges InverseCoordinates(s,n) and re-assembles the complement through SubAlign+Concat
 func checkInverse(o *pbt.Outcome, a gen.Ali, s, n int) error {
 	rows, l := a.Rows, aliLen(a)
-	al := gen.MustBuild(a)
+	al := build(a)
 	is, il, e := al.InverseCoordinates(s, n)
 	if !winValid(l, s, n) {
 		if e == nil {
@@ -485,7 +545,7 @@ func checkInverse(o *pbt.Outcome, a gen.Ali, s, n int) error {
 // checkTrim judges TrimSequences(k, fromStart)
 func checkTrim(o *pbt.Outcome, a gen.Ali, k int, fromStart bool) error {
 	rows, l := a.Rows, aliLen(a)
-	al := gen.MustBuild(a)
+	al := build(a)
 	e := al.TrimSequences(k, fromStart)
 	if k < 0 || k >= l {
 		if e == nil {
@@ -509,7 +569,7 @@ func checkTrim(o *pbt.Outcome, a gen.Ali, k int, fromStart bool) error {
 // checkCut: SubAlign(0,k) followed by SubAlign(k,L-k) re-assembles to the original
 func checkCut(o *pbt.Outcome, a gen.Ali, k int) error {
 	rows, l := a.Rows, aliLen(a)
-	al := gen.MustBuild(a)
+	al := build(a)
 	pre, e1 := al.SubAlign(0, k)
 	suf, e2 := al.SubAlign(k, l-k)
 	if e1 != nil || e2 != nil {
@@ -526,6 +586,8 @@ func checkCut(o *pbt.Outcome, a gen.Ali, k int) error {
 }
 
 func checkWin(c winCase) (o pbt.Outcome, err error) {
+	usePlan(&o, c.Plan)
+	defer donePlan(&o)
 	l := aliLen(c.Ali)
 	if err = checkSubAlign(&o, c.Ali, c.Start, c.Len); err != nil {
 		return
@@ -567,10 +629,11 @@ func TestWindows(t *testing.T) { pbt.Run(t, genWin, checkWin) }
 // ---- site lists: SelectSites, InversePositions, RefSites ---------------------------------------
 
 type sitesCase struct {
-	Ali      gen.Ali `json:"ali"`
-	Sites    []int   `json:"sites"`
-	Ref      string  `json:"ref"`
-	RefSites []int   `json:"ref_sites"`
+	Plan     gen.Plan `json:"plan"`
+	Ali      gen.Ali  `json:"ali"`
+	Sites    []int    `json:"sites"`
+	Ref      string   `json:"ref"`
+	RefSites []int    `json:"ref_sites"`
 }
 
 func genSiteList(t *rapid.T, l int, label string) []int {
@@ -606,6 +669,7 @@ func genSites(t *rapid.T) sitesCase {
 		np = aliLen(c.Ali)
 	}
 	c.RefSites = genSiteList(t, np, "refsite")
+	c.Plan = genPlan(t, c.Ali, "prov")
 	return c
 }
 
@@ -624,7 +688,7 @@ func sortedSet(v []int) []int {
 
 func checkSelect(o *pbt.Outcome, a gen.Ali, sites []int) error {
 	rows, l := a.Rows, aliLen(a)
-	al := gen.MustBuild(a)
+	al := build(a)
 	bad := false
 	for _, s := range sites {
 		if s < 0 || s >= l {
@@ -701,7 +765,7 @@ func checkSelect(o *pbt.Outcome, a gen.Ali, sites []int) error {
 // the order the caller gave them (the statement's "addressed order")
 func checkRefSites(o *pbt.Outcome, a gen.Ali, name string, sites []int) error {
 	rows := a.Rows
-	al := gen.MustBuild(a)
+	al := build(a)
 	ref, known := rowByName(rows, name)
 	p := nonGap(ref.Seq)
 	bad := !known
@@ -757,6 +821,8 @@ func checkRefSites(o *pbt.Outcome, a gen.Ali, name string, sites []int) error {
 }
 
 func checkSites(c sitesCase) (o pbt.Outcome, err error) {
+	usePlan(&o, c.Plan)
+	defer donePlan(&o)
 	l := aliLen(c.Ali)
 	if err = checkSelect(&o, c.Ali, c.Sites); err != nil {
 		return
@@ -831,10 +897,11 @@ func TestSites(t *testing.T) { pbt.Run(t, genSites, checkSites) }
 // ---- RefCoordinates -------------------------------------------------------------------------
 
 type refCase struct {
-	Ali   gen.Ali `json:"ali"`
-	Ref   string  `json:"ref"`
-	Start int     `json:"start"`
-	Len   int     `json:"len"`
+	Plan  gen.Plan `json:"plan"`
+	Ali   gen.Ali  `json:"ali"`
+	Ref   string   `json:"ref"`
+	Start int      `json:"start"`
+	Len   int      `json:"len"`
 }
 
 func genRef(t *rapid.T) refCase {
@@ -888,6 +955,7 @@ func genRef(t *rapid.T) refCase {
 		c.Start = bint(t, np, "bs")
 		c.Len = bint(t, np, "bn")
 	}
+	c.Plan = genPlan(t, c.Ali, "prov")
 	return c
 }
 
@@ -895,7 +963,7 @@ func genRef(t *rapid.T) refCase {
 // the window contains a gap of the reference
 func checkRefCoord(o *pbt.Outcome, a gen.Ali, name string, s, n int) (valid, gapInside bool, err error) {
 	rows, l := a.Rows, aliLen(a)
-	al := gen.MustBuild(a)
+	al := build(a)
 	ref, known := rowByName(rows, name)
 	p := nonGap(ref.Seq)
 	if known && sumOverflows(s, n) {
@@ -946,6 +1014,8 @@ func checkRefCoord(o *pbt.Outcome, a gen.Ali, name string, s, n int) (valid, gap
 }
 
 func checkRef(c refCase) (o pbt.Outcome, err error) {
+	usePlan(&o, c.Plan)
+	defer donePlan(&o)
 	valid, gapInside, err := checkRefCoord(&o, c.Ali, c.Ref, c.Start, c.Len)
 	if err != nil {
 		return
@@ -991,10 +1061,12 @@ func TestRefCoordinates(t *testing.T) { pbt.Run(t, genRef, checkRef) }
 // ---- Concat and Append --------------------------------------------------------------------------
 
 type concatCase struct {
-	A    gen.Ali `json:"a"`
-	B    gen.Ali `json:"b"`
-	C    gen.Ali `json:"c"`
-	Mode string  `json:"mode"` // concat | append
+	PlanA gen.Plan `json:"plan_a"`
+	PlanB gen.Plan `json:"plan_b"`
+	A     gen.Ali  `json:"a"`
+	B     gen.Ali  `json:"b"`
+	C     gen.Ali  `json:"c"`
+	Mode  string   `json:"mode"` // concat | append
 }
 
 func genNamed(t *rapid.T, names []string, alphabet, letters string, l int) gen.Ali {
@@ -1051,6 +1123,8 @@ func genConcat(t *rapid.T) concatCase {
 		}
 		c.B = genNamed(t, bn, balpha, bletters, genLen(t, 1, 12))
 		c.C = genNamed(t, drawNames(t, pool, "c"), alphabet, letters, genLen(t, 1, 6))
+		c.PlanA = genPlan(t, c.A, "prova")
+		c.PlanB = genPlan(t, c.B, "provb")
 		return c
 	}
 	// append
@@ -1068,6 +1142,8 @@ func genConcat(t *rapid.T) concatCase {
 		bn = drawNames(t, []string{"m0", "m1", "m2", "m3", "m4"}, "b")
 	}
 	c.B = genNamed(t, bn, alphabet, letters, lb)
+	c.PlanA = genPlan(t, c.A, "prova")
+	c.PlanB = genPlan(t, c.B, "provb")
 	return c
 }
 
@@ -1093,8 +1169,14 @@ func modelConcat(a, b []gen.Row) []gen.Row {
 }
 
 func checkConcat(c concatCase) (o pbt.Outcome, err error) {
-	a := gen.MustBuild(c.A)
-	b := gen.MustBuild(c.B)
+	usePlan(&o, c.PlanB)
+	b := build(c.B)
+	unusableB := planUnusable
+	usePlan(&o, c.PlanA) // the receiver
+	a := build(c.A)
+	planUnusable = planUnusable || unusableB
+	activePlan = gen.Plan{} // the third alignment is freshly built
+	defer donePlan(&o)
 	common, onlyA, onlyB := 0, 0, 0
 	for _, r := range c.A.Rows {
 		if _, ok := rowByName(c.B.Rows, r.Name); ok {
@@ -1128,7 +1210,7 @@ func checkConcat(c concatCase) (o pbt.Outcome, err error) {
 			return o, fmt.Errorf("Concat changed its argument: %s", gen.Show(gen.Snapshot(b)))
 		}
 		// a third alignment on top: padding of rows that were themselves padded
-		cc := gen.MustBuild(c.C)
+		cc := build(c.C)
 		if e := a.Concat(cc); e != nil {
 			return o, fmt.Errorf("second Concat refused: %v", e)
 		}
